@@ -260,14 +260,14 @@ func cborencGen(args []string) error {
 				}
 			case 3:
 				c.Op = "bytes"
-				l := []int{0, 1, 22, 23, 24, 25, 255, 256, 257, 1000}[r.Intn(10)]
+				l := []int{0, 1, 22, 23, 24, 25, 255, 256, 257, 1000, 511, 512, 513, 1023, 1024, 1025, 4095, 4096, 4097}[r.Intn(19)]
 				if big && r.Intn(6) == 0 {
 					l = []int{65535, 65536, 70000}[r.Intn(3)]
 				}
 				c.S = ints(randBytes(r, l))
 			case 4:
 				c.Op = "text"
-				l := []int{0, 1, 23, 24, 255, 256}[r.Intn(6)]
+				l := []int{0, 1, 23, 24, 255, 256, 511, 512, 513, 1023, 1024, 1025, 4095, 4096, 4097}[r.Intn(15)]
 				if big && r.Intn(6) == 0 {
 					l = []int{65535, 65536}[r.Intn(2)]
 				}
